@@ -366,4 +366,105 @@ theorem read_eeprom_total (d : Dev) (b : Bus) : (readEeprom d b).eeprom ≠ none
   · omega
   · omega
 
+/-! ### `parse_sync_managers` -/
+
+/-- one 8-byte sync-manager record of category 41: start address, length, control byte, and the
+three bytes (status, activate, PDI control) the driver does not look at -/
+structure SMEntry where
+  offset : Nat
+  size : Nat
+  ctrl : Nat
+  b5 : UInt8
+  b6 : UInt8
+  b7 : UInt8
+deriving Repr, DecidableEq
+
+def SMEntry.ok (e : SMEntry) : Prop := e.offset < 65536 ∧ e.size < 65536 ∧ e.ctrl < 256
+instance (e : SMEntry) : Decidable e.ok := by unfold SMEntry.ok; infer_instance
+
+def encSM (e : SMEntry) : List UInt8 :=
+  encLE 2 e.offset ++ (encLE 2 e.size ++ [UInt8.ofNat e.ctrl, e.b5, e.b6, e.b7])
+def encSMs : List SMEntry → List UInt8
+  | [] => []
+  | e :: es => encSM e ++ encSMs es
+
+/-- index (counted from `i`) and contents of the last record whose control byte has kind `k`
+in its low nibble: 0 = process data in, 2 = mailbox in, 4 = process data out, 6 = mailbox out -/
+def lastOfKind (k : Nat) : Nat → List SMEntry → Option (Nat × SMEntry)
+  | _, [] => none
+  | i, e :: es =>
+    match lastOfKind k (i + 1) es with
+    | some r => some r
+    | none => if e.ctrl % 16 = k then some (i, e) else none
+
+def area (r : Option (Nat × SMEntry)) : Option (Nat × Nat) := r.map fun r => (r.2.offset, r.2.size)
+def regAddr (r : Option (Nat × SMEntry)) (dflt : Nat) : Nat :=
+  match r with
+  | some r => smBase + 8 * r.1
+  | none => dflt
+
+/-- records `es` (numbered from `i0`) laid over a previous state `s` -/
+def overlay (s : SM) (i0 : Nat) (es : List SMEntry) : SM :=
+  { mbx_out := (area (lastOfKind 6 i0 es)).or s.mbx_out
+    mbx_in := (area (lastOfKind 2 i0 es)).or s.mbx_in
+    pdo_out := (area (lastOfKind 4 i0 es)).or s.pdo_out
+    pdo_in := (area (lastOfKind 0 i0 es)).or s.pdo_in
+    pdo_in_addr := regAddr (lastOfKind 0 i0 es) s.pdo_in_addr
+    pdo_out_addr := regAddr (lastOfKind 4 i0 es) s.pdo_out_addr }
+
+/-- what the table says: each area is the last record of its kind, the process-data register
+addresses are `0x800 + 8 * (record number)`, defaults 0x818 / 0x810 when there is none -/
+def smSpec (es : List SMEntry) : SM := overlay {} 0 es
+
+theorem smStep_enc (s : SM) (i : Nat) (e : SMEntry) (rest : List UInt8) (h : e.ok) :
+    smStep s i (encSM e ++ rest) = smAssign s i e.offset e.size e.ctrl := by
+  obtain ⟨h1, h2, h3⟩ := h
+  unfold smStep encSM
+  have t1 : (encLE 2 e.offset ++ (encLE 2 e.size ++ [UInt8.ofNat e.ctrl, e.b5, e.b6, e.b7]) ++ rest).take 2
+      = encLE 2 e.offset := by
+    rw [List.append_assoc, List.take_left' (by simp)]
+  have t2 : ((encLE 2 e.offset ++ (encLE 2 e.size ++ [UInt8.ofNat e.ctrl, e.b5, e.b6, e.b7]) ++ rest).drop 2).take 2
+      = encLE 2 e.size := by
+    rw [List.append_assoc, List.drop_left' (by simp), List.append_assoc, List.take_left' (by simp)]
+  have t3 : ((encLE 2 e.offset ++ (encLE 2 e.size ++ [UInt8.ofNat e.ctrl, e.b5, e.b6, e.b7]) ++ rest).getD 4 0).toNat
+      = e.ctrl := by
+    simp [encLE, Nat.mod_eq_of_lt h3]
+  rw [t1, t2, t3, decLE_encLE 2 _ (by omega), decLE_encLE 2 _ (by omega)]
+
+theorem length_encSM (e : SMEntry) : (encSM e).length = 8 := by simp [encSM]
+
+theorem overlay_cons (s : SM) (i0 : Nat) (e : SMEntry) (es : List SMEntry) :
+    overlay (smAssign s (8 * i0) e.offset e.size e.ctrl) (i0 + 1) es = overlay s i0 (e :: es) := by
+  simp only [overlay, lastOfKind, smAssign]
+  cases lastOfKind 0 (i0 + 1) es <;> cases lastOfKind 2 (i0 + 1) es <;>
+  cases lastOfKind 4 (i0 + 1) es <;> cases lastOfKind 6 (i0 + 1) es <;>
+  by_cases h0 : e.ctrl % 16 = 0 <;> by_cases h2 : e.ctrl % 16 = 2 <;>
+  by_cases h4 : e.ctrl % 16 = 4 <;> by_cases h6 : e.ctrl % 16 = 6 <;>
+  first | omega | simp [h0, h2, h4, h6, area, regAddr]
+
+theorem smGo_enc (es : List SMEntry) (hok : ∀ e ∈ es, e.ok) (s : SM) (i0 : Nat) :
+    smGo es.length (8 * i0) (encSMs es) s = (overlay s i0 es, true) := by
+  induction es generalizing s i0 with
+  | nil => simp [smGo, overlay, lastOfKind, area, regAddr]
+  | cons e es ih =>
+    have hl : ¬ (encSM e ++ encSMs es).length < 5 := by simp [length_encSM]; omega
+    simp only [List.length_cons, smGo, encSMs, hl, ↓reduceIte]
+    rw [smStep_enc _ _ _ _ (hok e (by simp)), List.drop_left' (length_encSM e)]
+    have := ih (fun e' h' => hok e' (by simp [h'])) (smAssign s (8 * i0) e.offset e.size e.ctrl) (i0 + 1)
+    rw [show 8 * (i0 + 1) = 8 * i0 + 8 by omega] at this
+    rw [this, overlay_cons]
+
+theorem length_encSMs (es : List SMEntry) : (encSMs es).length = 8 * es.length := by
+  induction es with
+  | nil => rfl
+  | cons e es ih => simp [encSMs, length_encSM, ih]; omega
+
+/-- **sm_exact**: for every table of sync-manager records (any number, any order, repeated kinds,
+unknown kinds), `parse_sync_managers` returns for each mailbox / process-data area the offset and
+size stored in the last record of its kind and the address of that record's register block. -/
+theorem sm_exact (es : List SMEntry) (hok : ∀ e ∈ es, e.ok) : parseSM (encSMs es) = (smSpec es, true) := by
+  unfold parseSM smSpec
+  rw [length_encSMs, show (8 * es.length + 7) / 8 = es.length by omega]
+  exact smGo_enc es hok {} 0
+
 end Ebv.C17
